@@ -267,8 +267,12 @@ def compareOp (cfg : Config) (model : ApiRes) (mdev : Dev) (mimgAfter implAfter 
     Option (String × String) :=
   let lvl := projLevel cfg.proj
   let mres := resTokens model
-  -- an injected fault: only the result kind is compared (DESIGN §6 C09); panics/hangs always compared
-  if mres ≠ io.res then some ("ret", s!"model={" ".intercalate mres} impl={" ".intercalate io.res}")
+  -- an operation run under an injected fault is not compared with the model: the fault is addressed by its
+  -- device-call index, which a behaviour-preserving change of the call pattern shifts; what the property demands of
+  -- such an operation (the error surfaces as Io unless it fired inside a destructor, no panic, no hang) is checked on
+  -- the implementation's own result by the C09 oracle, and for the model it is a theorem (Props/C09, C09wview)
+  if io.fault.isSome then none
+  else if mres ≠ io.res then some ("ret", s!"model={" ".intercalate mres} impl={" ".intercalate io.res}")
   else if resRows model ≠ io.rows then
     let d := (resRows model).zip io.rows |>.find? fun (a, b) => a ≠ b
     some ("rows", match d with
